@@ -99,7 +99,7 @@ func runC09(r *fw.Run) {
 	c09Immutability(r)
 	c09PlanCache(r)
 	c09Pools(r)
-	c09VariablesByNameOnlyThroughView(r)
+	variablesByNameOnlyThroughView(r, "C09-R7")
 	mergedDependencies(r, "C09-R6") // multi-fetch merging is transparent only if the merged fetch waits for every member's prerequisites
 	if os.Getenv("VERIF_DEBUG_PLANWRITES") != "" {
 		for _, pkg := range []string{"resolve", "engine"} {
@@ -833,9 +833,9 @@ func c09Pools(r *fw.Run) {
 // is a who-may-read rule: no function looks a key up directly in Context.Variables (a Get*/Exists call on that field);
 // inside VariablesView every keyed lookup in the raw variables is made on the failure edge of the remap lookup or with the
 // name the remap returned.
-func c09VariablesByNameOnlyThroughView(r *fw.Run) {
+func variablesByNameOnlyThroughView(r *fw.Run, rule string) {
 	p := r.Prog
-	r.Rule("C09-R7", "request variables are looked up by name only through VariablesView (which translates renamed variables): no Get*/Exists call on Context.Variables anywhere in the loaded packages; VariablesView.Get consults the remap table before it touches the raw variables")
+	r.Rule(rule, "request variables are looked up by name only through VariablesView (which translates renamed variables): no Get*/Exists call on Context.Variables anywhere in the loaded packages; VariablesView.Get consults the remap table before it touches the raw variables")
 	nDirect, nView := 0, 0
 	for _, pkgAlias := range []string{"resolve", "plan", "postprocess", "gqlds", "engine"} {
 		for _, fi := range p.Funcs(pkgAlias) {
@@ -851,17 +851,17 @@ func c09VariablesByNameOnlyThroughView(r *fw.Run) {
 				}
 				if fw.IsFieldSel(info, sel.X, "resolve", "Context", "Variables") {
 					nDirect++
-					r.Fail("C09-R7", fi.Name()+"/direct-lookup-in-Context.Variables#"+itoa(nDirect), p.Pos(c.Pos()), "no keyed lookup in Context.Variables outside VariablesView",
+					r.Fail(rule, fi.Name()+"/direct-lookup-in-Context.Variables#"+itoa(nDirect), p.Pos(c.Pos()), "no keyed lookup in Context.Variables outside VariablesView",
 						"the variable is looked up under its canonical (plan) name in the raw request variables, which are keyed by the client's names: after variable renaming the lookup misses (or hits a different client variable that happens to be spelled like a canonical name) — the same request behaves differently depending on how its variables are spelled")
 				}
 				return true
 			})
 		}
 	}
-	r.Check(nDirect == 0, "C09-R7", "no-direct-lookup-in-Context.Variables", "-", "no Get*/Exists call on the field Context.Variables in resolve, plan, postprocess, graphql_datasource, execution/engine", "see the individual sites")
+	r.Check(nDirect == 0, rule, "no-direct-lookup-in-Context.Variables", "-", "no Get*/Exists call on the field Context.Variables in resolve, plan, postprocess, graphql_datasource, execution/engine", "see the individual sites")
 	// inside the view: remap consulted first
 	if fi := p.Func("resolve", "VariablesView.Get"); fi == nil {
-		r.Error("C09-R7: VariablesView.Get not found")
+		r.Error("%s: VariablesView.Get not found", rule)
 	} else {
 		info := fi.Info()
 		in := fw.NewInterp(fi)
@@ -944,11 +944,11 @@ func c09VariablesByNameOnlyThroughView(r *fw.Run) {
 						okArg = true
 					}
 				}
-				r.Check(okArg, "C09-R7", "VariablesView.Get/remap-consulted-before-lookup#"+itoa(nView), p.Pos(c.Pos()), "the lookup in the raw variables uses the name the remap table returned, or is made on the edge where the table has no entry",
+				r.Check(okArg, rule, "VariablesView.Get/remap-consulted-before-lookup#"+itoa(nView), p.Pos(c.Pos()), "the lookup in the raw variables uses the name the remap table returned, or is made on the edge where the table has no entry",
 					"the raw variables are consulted under the canonical name although the remap table may hold an entry for it: a client variable that happens to be spelled like a canonical name (a, b, …) is read instead of the renamed one — `transfer(from:$b,to:$a)` sends the two values swapped")
 			},
 		}
 		in.Run(nil)
 	}
-	r.Expect("C09-R7", "keyed lookups in the raw variables inside VariablesView.Get", nView, 1)
+	r.Expect(rule, "keyed lookups in the raw variables inside VariablesView.Get", nView, 1)
 }
